@@ -34,13 +34,28 @@ ASSUMPTIONS = ['how often a stage is called depends on the data, which records o
                'option dictionaries are dicts or None; the user does not alias one dict object under two options',
                'mask_sift_second_layer forwards a copy of sift_args to mask_sift after setting max_imfs (when absent) and mask_freqs '
                '(always: an array slice, so get_mask_freqs is never called); it takes no sift function, so of the configuration routes '
-               'only the unpacked configuration exists (model: Route.getFunc -> TypeError, compared on every case)']
+               'only the unpacked configuration exists (model: Route.getFunc -> TypeError, compared on every case)',
+               'mechanism-level (literal=False) kinds: stage-call-ignores-user-options for the inner stages interp_envelope / get_padded_extrema '
+               '(how the public stage functions call each other; the get_next_imf level stays literal: observed extraction result vs extraction '
+               'with the user dictionaries), mask-second-layer-accepts-sift-func, malformed-option-accepted for duplicate names / invalid values, '
+               'special-case-literal-differs-from-defaults, pad-option-not-applied when no np.pad dictionary is supplied / pad_width exceeds the '
+               'number of extrema / fewer than two extrema / several padding rounds, pad-oracle-not-runnable, harness-raised, instance-check-crashed; '
+               'integer- and float-padded location ramps are both accepted']
 RULE = ('grid: variant {sift, ensemble_sift, complete_ensemble_sift, mask_sift (zc / if / float / explicit frequencies), '
         'get_next_imf_mask, get_mask_freqs, get_next_imf, sift_second_layer(sift | mask_sift), mask_sift_second_layer} x imf options {sd threshold, '
         'rilling thresholds, fixed iterations, step size, energy threshold} x envelope options {splrep, pchip, mono_pchip} x '
         'extrema options {pad width, parabolic, custom np.pad dicts for locations and magnitudes, empty dict, None} x all '
         'three routes in every case x nprocesses {1, 2} x 3 signal families; plus malformed options (unknown names, duplicated '
         'names, non-dict values, invalid method). Non-trivial: at least one stage receives a non-default option. '
+        'Second-layer cases are additionally run through the combined delivery sift_func=get_func partial + sift_args=keyword dicts and, when '
+        'max_imfs equals its documented default, without a max_imfs entry (instance check: same result as the direct route). An unreachable '
+        'stop threshold (sd_thresh=0) with a small max_iters must end every variant like the classic sift (an error, any kind). The '
+        'noise-assisted variants are compared across routes only when a seeded call is reproducible (first route run twice). '
+        'stop_rule (instance-only): rilling (5 triples whose 1st and 3rd entries differ + default), sd (3 thresholds + default), fixed x '
+        '{splrep, pchip, mono_pchip} x {no extrema options, pad 4, parabolic} on noisy tones / noise / walk, n 64..256: get_next_imf, sift, '
+        'sift via get_func, mask_sift and get_next_imf_mask with zero amplitude, ensemble_sift with zero noise, sift_second_layer must equal '
+        'the extraction assembled from interp_envelope and the documented rule with the supplied numbers (near ties in a stop decision and '
+        'runs beyond 300 iterations are tagged, not judged). '
         'pad_oracle (instance-only, independent of the stage function): get_padded_extrema x {peaks, troughs, abs_peaks} and '
         'interp_envelope x {upper, lower, combined} x {3 interpolation methods} with custom loc_pad_opts {default, reflect/odd, '
         'linear_ramp} and mag_pad_opts {median, mean, edge, maximum, minimum, constant c / (c1,c2), linear_ramp, reflect, symmetric, '
@@ -91,7 +106,7 @@ def _make_wrapper(name, orig):
             ba.apply_defaults()
             rec = dict(ba.arguments)
             x = rec.pop(first)
-            lines.append('call %s %s' % (name, _cfg.safe_wire(rec)))
+            lines.append('call %s %s' % (name, _cfg.safe_wire(_sorted_keys(rec))))
         except TypeError:
             lines.append('call %s !unbindable' % name)
         _STATE['active'][name] = _STATE['active'].get(name, 0) + 1
@@ -122,7 +137,7 @@ def _make_wrapper(name, orig):
             finally:
                 _STATE['busy'] = False
             if not ok:
-                lines.append('mismatch %s %s' % (name, _cfg.safe_wire(rec)))
+                lines.append('mismatch %s %s' % (name, _cfg.safe_wire(_sorted_keys(rec))))
         _append(d, lines)
         return out
     functools.update_wrapper(wrapper, orig)
@@ -236,10 +251,44 @@ def expected_stage_kwargs(u):
 
 ROUTES = ['direct', 'unpack', 'get_func']
 CONFIG_VARIANTS = ['sift', 'ensemble_sift', 'complete_ensemble_sift', 'mask_sift']
+NOISE_VARIANTS = ['ensemble_sift', 'complete_ensemble_sift']
+IA_COLUMNS = 2          # first-layer columns handed to the second-layer sifts: the documented default of their max_imfs
 
 
 def routes_of(case):
     return ROUTES if case['variant'] in CONFIG_VARIANTS else ['direct']
+
+
+def extra_routes_of(case):
+    """Delivery forms that only exist for the second-layer sifts (instance check only, no model op):
+    get_func+args      sift_second_layer(IA, sift_func=<get_func partial of a config holding the top-level options>,
+                       sift_args=<the user's option dicts>): partial and keyword dicts combined; the keyword dicts are the
+                       SUPPLIED options (ordinary partial semantics: call-time keywords win)       (round-3 change C06/1)
+    direct-no-max_imfs the direct route without a 'max_imfs' entry in sift_args, when the entry equals the documented
+                       default (number of first-layer IMFs): leaving an option at its default must not drop the others
+                                                                                                   (round-4 change C06/2)"""
+    if not case.get('second') or case.get('malformed'):
+        return []
+    ex = []
+    top = dict((k2, v2) for k2, v2 in case.get('top', []))
+    if case['second'] == 1:
+        ex.append('get_func+args')
+    if top.get('max_imfs') == IA_COLUMNS:
+        ex.append('direct-no-max_imfs')
+    return ex
+
+
+def never_stops(case):
+    """imf options whose stop rule cannot be met by construction (sd metric >= 0 is never < 0): the iteration limit the
+    user supplied must then end the extraction with an error in every variant, as it does in the classic sift"""
+    if case.get('imf') is None:
+        return False
+    d = dict((k2, v2) for k2, v2 in case['imf']['v'])
+    return d.get('stop_method', 'sd') == 'sd' and d.get('sd_thresh', 1) == 0 and 'max_iters' in d
+
+
+def _is_err(oc):
+    return isinstance(oc, str) and oc.startswith('e:')
 
 
 def run_route(case, route, x, with_opts=True):
@@ -251,8 +300,19 @@ def run_route(case, route, x, with_opts=True):
     if v == 'get_next_imf' and not with_opts:
         top = {}              # for get_next_imf itself the imf options are the top-level keywords
     func = getattr(S, v)
-    if route == 'direct':
+    if route == 'get_func+args':
+        cfg = S.get_config(v)
+        for k2, v2 in top.items():
+            cfg[k2] = v2
+        sift_args = {}
+        for name, key in (('imf_opts', 'imf'), ('envelope_opts', 'env'), ('extrema_opts', 'ext')):
+            if u[key] is not None:
+                sift_args[name] = u[key]
+        sift_func = call = cfg.get_func()
+    elif route in ('direct', 'direct-no-max_imfs'):
         kw = dict(top)
+        if route == 'direct-no-max_imfs':
+            del kw['max_imfs']
         for name, key in (('imf_opts', 'imf'), ('envelope_opts', 'env'), ('extrema_opts', 'ext')):
             if u[key] is not None:
                 kw[name] = u[key]
@@ -297,7 +357,11 @@ class Routing(Stream):
     IMF = [None, {}, {'sd_thresh': 0.02}, {'stop_method': 'rilling'},
            {'stop_method': 'rilling', 'rilling_thresh': {'$': 'tuple', 'v': [0.2, 0.7, 0.2]}},
            {'stop_method': 'fixed', 'max_iters': 3}, {'env_step_size': 0.5}, {'energy_thresh': 40, 'sd_thresh': 0.05},
-           {'stop_method': 'rilling', 'rilling_thresh': [0.02, 0.3, 0.02], 'env_step_size': 0.75, 'max_iters': 40}]
+           {'stop_method': 'rilling', 'rilling_thresh': [0.02, 0.3, 0.02], 'env_step_size': 0.75, 'max_iters': 40},
+           # a stop rule that cannot be met (the sd metric is never < 0) with a small iteration limit: the supplied limit
+           # must end the extraction with the documented error in every variant (round-3 change C06/2 re-sifted the
+           # ensemble members with stop_method='fixed' on that path)
+           {'sd_thresh': 0.0, 'max_iters': 4}]
     ENV = [None, {}, {'interp_method': 'pchip'}, {'interp_method': 'mono_pchip'}, {'interp_method': 'splrep'}]
     EXT = [None, {}, {'pad_width': 4}, {'pad_width': 1}, {'parabolic_extrema': True},
            {'pad_width': 3, 'parabolic_extrema': True},
@@ -375,6 +439,15 @@ class Routing(Stream):
             # mask_sift_second_layer: every stage option, all three delivery attempts
             self._case(V['mask_siftM2'], 3, 2, 2), self._case(V['mask_siftM2'], 0, 0, 0), self._case(V['mask_siftM2'] + 1, 5, 3, 5),
             self._case(V['mask_siftM2'] + 2, 2, 2, 10), self._case(V['mask_siftM2'], 6, 0, 7),
+            # seeded change C06-1 (the sign-flipped half of a flip ensemble sifted without the extrema options): splrep is global
+            self._case(V['ensemble_sift'] + 1, 0, 0, 2, n=128),
+            # second layer, effective options on one stage at a time (extra routes get_func+args / direct-no-max_imfs)
+            self._case(V['sift2'], 5, 0, 0, n=128), self._case(V['sift2'], 0, 2, 0, n=128), self._case(V['sift2'], 0, 0, 2, n=128),
+            self._case(V['mask_sift2'], 5, 3, 0, n=96), self._case(V['mask_siftM2'], 0, 0, 5, n=96),
+            # the supplied iteration limit with an unreachable stop threshold, in every variant incl. worker processes
+            self._case(V['sift'], 9, 0, 0, n=128), self._case(V['ensemble_sift'], 9, 0, 0, n=128), self._case(V['ensemble_sift'] + 1, 9, 0, 0, n=128),
+            self._case(V['complete_ensemble_sift'], 9, 0, 0, n=128), self._case(V['complete_ensemble_sift'] + 1, 9, 2, 0, n=128),
+            self._case(V['mask_sift'], 9, 0, 0, n=128), self._case(V['sift2'], 9, 0, 0, n=128), self._case(V['get_next_imf_mask'], 9, 0, 0, n=128),
         ]
         # malformed options: unknown names, names bound twice, non-dict values, invalid method
         bad = [
@@ -390,9 +463,11 @@ class Routing(Stream):
             dict(self._case(V['mask_siftM2'], 0, 0, 0), imf={'$': 'dict', 'v': [['nope', 1]]}),
             dict(self._case(V['mask_siftM2'], 0, 0, 0), env={'$': 'dict', 'v': [['interp_method', 'cubic']]}),
         ]
-        for c in bad:
+        kinds = ['unknown-name', 'unknown-name', 'unknown-name', 'duplicate-name', 'duplicate-name', 'duplicate-name',
+                 'invalid-value', 'unknown-name', 'invalid-value', 'unknown-name', 'invalid-value']
+        for c, kind in zip(bad, kinds):
             c['expect_effect'] = []
-            c['malformed'] = True
+            c['malformed'] = kind
         return out + bad
 
     def generate(self, rng, tier):
@@ -414,16 +489,27 @@ class Routing(Stream):
             u = dict(u, imf={k2: _cfg.build(v2) for k2, v2 in case['top']})
         expect = None if case.get('malformed') else copy.deepcopy(expected_stage_kwargs(u))
         res = {}
-        for route in routes_of(case):
-            with traced(expect) as t:
+
+        def one(route, exp=expect):
+            with traced(exp) as t:
                 np.random.seed(case['seed'])
                 try:
                     outcome = digest(run_route(case, route, x))
                 except Exception as e:  # noqa
                     outcome = 'e:' + err_kind(e)
-            res[route] = {'outcome': outcome, 'calls': {s_: sorted(t.calls[s_]) for s_ in STAGES},
-                          'mismatch': {s_: sorted(t.mismatch[s_])[:3] for s_ in STAGES if t.mismatch[s_]},
-                          'pids': t.pids, 'raised': sorted(t.raised)}
+            return {'outcome': outcome, 'calls': {s_: sorted(t.calls[s_]) for s_ in STAGES},
+                    'mismatch': {s_: sorted(t.mismatch[s_])[:3] for s_ in STAGES if t.mismatch[s_]},
+                    'pids': t.pids, 'raised': sorted(t.raised)}
+        for route in routes_of(case):
+            res[route] = one(route)
+        extra = {}
+        for route in extra_routes_of(case):
+            extra[route] = one(route, None)       # judged by their outcome only: no per-call replay
+        out = {'routes': res, 'extra_routes': extra, 'fallback': list(_STATE['fallback'])}
+        if case['variant'] in NOISE_VARIANTS:
+            # The routes of the noise-assisted variants can only be compared when seeding numpy's legacy global generator
+            # makes a call reproducible (nothing in the property says where the noise comes from): run the first route twice.
+            out['reproducible'] = one(routes_of(case)[0], None)['outcome'] == res[routes_of(case)[0]]['outcome']
         base = None
         if case.get('expect_effect'):
             np.random.seed(case['seed'])
@@ -431,7 +517,16 @@ class Routing(Stream):
                 base = digest(run_route(case, 'direct', x, with_opts=False))
             except Exception as e:  # noqa
                 base = 'e:' + err_kind(e)
-        return {'routes': res, 'default_outcome': base, 'fallback': list(_STATE['fallback'])}
+        out['default_outcome'] = base
+        if never_stops(case):
+            # the classic sift with the very same option dictionaries (what "identically" is measured against)
+            S = sift_mod()
+            kw = {name: u[key] for name, key in (('imf_opts', 'imf'), ('envelope_opts', 'env'), ('extrema_opts', 'ext')) if u[key] is not None}
+            try:
+                out['classic'] = digest(S.sift(x, max_imfs=1, **copy.deepcopy(kw)))
+            except Exception as e:  # noqa
+                out['classic'] = 'e:' + err_kind(e)
+        return out
 
     # ---------------------------------------------------------------- model side
     def ops(self, case, out):
@@ -454,14 +549,24 @@ class Routing(Stream):
             o = out['routes'][route]
             failed = isinstance(o['outcome'], str) and o['outcome'].startswith('e:')
             if r.status == 'err':
-                if not failed or o['outcome'][2:] != r.words[0]:
+                if not failed:
+                    if case.get('malformed') or (case.get('second') == 2 and route == 'get_func'):
+                        # outside the quantifier (malformed options; a callable handed to mask_sift_second_layer): the
+                        # model refuses, the implementation accepts - not the property's business
+                        skipped = 'skip:input outside the quantifier: the model refuses it, the implementation returns a result'
+                        continue
                     return '%s: model raises %s, implementation %s' % (route, r.words, o['outcome'])
-                continue
+                continue          # both refuse: the property fixes no exception class
             if not r.ok:
                 return '%s: model answered %s' % (route, r.raw[:200])
+            if failed and case.get('malformed'):
+                skipped = 'skip:input outside the quantifier: the implementation refuses it (%s), the model does not' % o['outcome']
+                continue
             for st, key in zip(STAGES, ('gni', 'ie', 'gpe')):
-                model = set(_cfg.wire(x) for x in _cfg.unwire(r.args[key]))
-                impl = set(o['calls'][st])
+                # records are compared as VALUES: the order of the keys inside an option dictionary is not observable
+                # by the stage that receives it
+                model = set(_canon_wire(x) for x in _cfg.unwire(r.args[key]))
+                impl = set(_canon_rec(x) for x in o['calls'][st])
                 if failed:
                     if not impl <= model:
                         return '%s/%s: implementation raised %s after calls the model does not make: %s' % (
@@ -472,36 +577,62 @@ class Routing(Stream):
         return skipped
 
     def holds(self, case, out):
+        try:
+            return self._holds(case, out)
+        except Exception as ex:  # noqa   a crash of the check itself is never a property violation
+            return [Failure('instance-check-crashed', repr(ex), literal=False)]
+
+    def _holds(self, case, out):
         if isinstance(out, ImplError):
             if out['error'] == 'Timeout':
                 return []      # run time is not part of C06; counted as skipped in compare()
-            return [Failure('harness-raised:' + out['error'], out['msg'])]
+            return [Failure('harness-raised:' + out['error'], out['msg'], literal=False)]
         fs = []
         v = self._vname(case['variant'], case.get('second'))
         routes = routes_of(case)
         if case.get('second') == 2:
-            # no callable can be handed to mask_sift_second_layer: the attempt must be rejected, and is not a delivery route
-            oc = out['routes']['get_func']['outcome']
-            if oc != 'e:TypeError':
-                fs.append(Failure('mask-second-layer-accepts-sift-func', str(oc)))
+            # no callable can be handed to mask_sift_second_layer (the model's Route.getFunc -> TypeError convention; the
+            # property does not say what that function accepts): mechanism level, and not a delivery route
+            # (whether it is rejected - today a TypeError - is not judged: tag mask-second-layer:sift_func-accepted)
             routes = [r_ for r_ in routes if r_ != 'get_func']
         if case.get('malformed'):
+            # "never silently dropped": an option name no stage knows must not be swallowed (literal); a name bound twice
+            # or an invalid VALUE is outside the quantifier (a library may merge / add a method): mechanism level
+            lit = case['malformed'] in (True, 'unknown-name')
             for route in routes:
                 oc = out['routes'][route]['outcome']
-                if not (isinstance(oc, str) and oc.startswith('e:')):
-                    fs.append(Failure('malformed-option-accepted:%s:%s' % (v, route), str(case)))
+                if not _is_err(oc):
+                    fs.append(Failure('malformed-option-accepted:%s:%s' % (v, route), str(case), literal=lit))
             return fs
-        for route in routes:
-            o = out['routes'][route]
+        allr = dict(out['routes'])
+        allr.update(out.get('extra_routes') or {})
+        for route in routes + list((out.get('extra_routes') or {})):
+            o = allr[route]
             for st, recs in o['mismatch'].items():
+                # The extraction stage get_next_imf is the outermost stage of the chain: its observed result on its observed
+                # input must be the result of single-IMF extraction with the user's dictionaries ("output equality with a
+                # pipeline assembled from the stage functions with the same options") - literal. How the public stage
+                # functions call EACH OTHER inside an extraction (interp_envelope -> get_padded_extrema) is mechanism.
                 fs.append(Failure('stage-call-ignores-user-options:%s:%s' % (st, case['variant']),
                                   '%s route %s: %s was called with %s; replaying it with the user options gives a different result'
-                                  % (v, route, st, _pretty(recs))))
-        ocs = {route: out['routes'][route]['outcome'] for route in routes}
+                                  % (v, route, st, _pretty(recs)), literal=(st == 'get_next_imf')))
+        ocs = {route: allr[route]['outcome'] for route in allr}
         ref = ocs[routes[0]]
-        for route in routes[1:]:
-            if ocs[route] != ref:
-                fs.append(Failure('routes-disagree:%s:%s-vs-direct' % (case['variant'], route), '%s vs %s' % (ocs[route], ref)))
+        if case['variant'] in NOISE_VARIANTS and not out.get('reproducible', True):
+            pass        # seeding the global generator does not make a call reproducible: routes not comparable (tagged)
+        else:
+            for route in routes[1:] + list((out.get('extra_routes') or {})):
+                if ocs[route] != ref and not (_is_err(ocs[route]) and _is_err(ref)):
+                    fs.append(Failure('routes-disagree:%s:%s-vs-direct' % (case['variant'], route), '%s vs %s (%s)' % (ocs[route], ref, v)))
+        if _is_err(out.get('classic')):
+            for route in allr:
+                if route in routes or route in (out.get('extra_routes') or {}):
+                    if not _is_err(ocs[route]):
+                        fs.append(Failure('supplied-iteration-limit-not-applied:%s:%s' % (case['variant'], route),
+                                          '%s route %s with imf options %s: the stop rule can never be met, the classic sift given the same '
+                                          'dictionaries ends with %s after max_iters iterations, this variant returned %s - the supplied stop '
+                                          'rule / iteration limit did not govern the extraction stage'
+                                          % (v, route, _cfg.build(case['imf']), out['classic'][2:], ocs[route])))
         # (no 'option has no effect on this signal' check: an option may legitimately not matter for one signal; whether
         #  options are honoured is decided by the per-call replay above and by the stage-call records of the correspondence)
         return fs
@@ -517,6 +648,14 @@ class Routing(Stream):
         if case.get('malformed'):
             t.append('malformed')
         if not isinstance(out, ImplError):
+            if out.get('reproducible') is False:
+                t.append('seeded-call-not-reproducible:routes-not-compared')
+            if case.get('second') == 2 and not _is_err(out['routes'].get('get_func', {}).get('outcome', 'e:')):
+                t.append('mask-second-layer:sift_func-accepted')
+            if 'classic' in out:
+                t.append('unreachable-stop-rule:classic-sift-' + ('raises' if _is_err(out['classic']) else 'returns'))
+            for route in (out.get('extra_routes') or {}):
+                t.append('extra-route=' + route)
             for route, o in out['routes'].items():
                 t.append('outcome:%s' % ('error:' + o['outcome'][2:] if str(o['outcome']).startswith('e:') else 'array'))
                 if o['pids'] > 1:
@@ -536,6 +675,28 @@ class Routing(Stream):
                 yield c
         if case['signal']['n'] > 128:
             yield dict(case, signal=dict(case['signal'], n=128))
+
+
+def _sorted_keys(o):
+    if isinstance(o, dict):
+        return {k2: _sorted_keys(o[k2]) for k2 in sorted(o)}
+    if isinstance(o, list):
+        return [_sorted_keys(x) for x in o]
+    if isinstance(o, tuple):
+        return tuple(_sorted_keys(x) for x in o)
+    return o
+
+
+def _canon_wire(o):
+    return _cfg.wire(_sorted_keys(o))
+
+
+def _canon_rec(rec):
+    """a recorded stage call (wire string) with every dictionary in sorted key order; unparsable records stay as they are"""
+    try:
+        return _cfg.wire(_sorted_keys(_cfg.unwire(rec)))
+    except Exception:  # noqa
+        return rec
 
 
 def _pretty(recs):
@@ -594,7 +755,7 @@ class Signatures(Stream):
             if n_.startswith('_'):
                 # private helper: only the parameters the model binds positionally must be where the model expects them
                 live = dict(list(live.items())[:len(model[n_])])
-            if _cfg.wire(model[n_]) != _cfg.wire(live):
+            if _canon_wire(model[n_]) != _canon_wire(live):       # as values: key order of (nested) dictionaries is not compared
                 return '%s: live signature %s, model %s' % (n_, _cfg.unwire(out[n_]), model[n_])
         return None
 
@@ -633,9 +794,14 @@ class StageSpecialCases(Stream):
         return res
 
     def holds(self, case, out):
+        # No option is SUPPLIED in any of these calls, so nothing can be dropped: agreement of the in-function fall-back
+        # literals with the signature / get_config defaults is the model's `defaults_agree` (mechanism level).
         if isinstance(out, ImplError):
-            return [Failure('special-cases:raises:' + out['error'], out['msg'])]
-        return [Failure('special-case-literal-differs-from-defaults:' + k2, str(v2)) for k2, v2 in out.items() if len(set(map(str, v2))) != 1]
+            if 'imeout' in str(out['error']):
+                return []
+            return [Failure('special-cases:raises:' + out['error'], out['msg'], literal=False)]
+        return [Failure('special-case-literal-differs-from-defaults:' + k2, str(v2), literal=False)
+                for k2, v2 in out.items() if len(set(map(str, v2))) != 1]
 
     def tags(self, case, out):
         return ['family=' + case['signal']['family']]
@@ -774,7 +940,7 @@ class PadOracle(Stream):
         n, w, par = len(x), case['pad_width'], case['parabolic']
         tol = 1e-9 * max(1.0, float(np.max(np.abs(x))), float(n))
         res = {'tol': tol, 'gpe': {}, 'env': {}}
-        oracles = {}
+        oracles, alts = {}, {}
         for m in GPE_MODES:
             r = {}
             raw = S.get_padded_extrema(x.copy(), pad_width=0, mode=m, parabolic_extrema=par)
@@ -786,8 +952,20 @@ class PadOracle(Stream):
             else:
                 ul, um = (np.array([]), np.array([])) if raw[0] is None else raw
             r['n_ext'] = int(len(ul))
-            want = oracle_padded(ul, um, n, w, case['loc'], case['mag'])
+            try:
+                want = oracle_padded(ul, um, n, w, case['loc'], case['mag'])
+                # the location ramp of np.pad(linear_ramp) is truncated for integer locations and exact for float ones:
+                # the property does not say which dtype the stage keeps its locations in, either reading is accepted
+                alt = None
+                if want is not None and np.asarray(ul).dtype.kind in 'iu' and (case['loc'] or {}).get('mode') == 'linear_ramp':
+                    alt = oracle_padded(np.asarray(ul, dtype=float), um, n, w, case['loc'], case['mag'])
+            except Exception as e:  # noqa   the oracle's own np.pad refuses / the padding rule does not terminate
+                r['oracle_failed'] = '%s: %s' % (err_kind(e), str(e)[:100])
+                oracles[m] = None
+                res['gpe'][m] = r
+                continue
             oracles[m] = want
+            alts[m] = alt
             r['rounds'] = None if want is None else want[2]
             try:
                 got = S.get_padded_extrema(x.copy(), pad_width=w, mode=m, parabolic_extrema=par,
@@ -798,11 +976,21 @@ class PadOracle(Stream):
                 continue
             r['loc'] = _dev(got[0], None if want is None else want[0])
             r['mag'] = _dev(got[1], None if want is None else want[1])
+            if alt is not None and isinstance(r['loc'], float) and r['loc'] > tol:
+                d2 = _dev(got[0], alt[0])
+                if isinstance(d2, float) and d2 <= tol:
+                    want = oracles[m] = alt
+                    alts[m] = None
+                    r['loc'], r['mag'] = d2, _dev(got[1], alt[1])
+                    r['float_locations'] = True
             r['got'] = [_head(got[0]), _head(got[1])]
             r['want'] = [None, None] if want is None else [_head(want[0]), _head(want[1])]
             res['gpe'][m] = r
         for em, m in ENV_MODES.items():
             r = {}
+            if 'oracle_failed' in res['gpe'][m]:
+                res['env'][em] = {'oracle_failed': res['gpe'][m]['oracle_failed']}
+                continue
             want = oracles[m]
             ext = {'pad_width': w, 'parabolic_extrema': par, 'loc_pad_opts': copy.deepcopy(case['loc']),
                    'mag_pad_opts': copy.deepcopy(case['mag'])}
@@ -826,6 +1014,15 @@ class PadOracle(Stream):
             else:
                 env, (gl, gm) = got
                 r['loc'], r['mag'] = _dev(gl, want[0]), _dev(gm, want[1])
+                if alts.get(m) is not None and isinstance(r['loc'], float) and r['loc'] > tol:
+                    d2 = _dev(gl, alts[m][0])
+                    if isinstance(d2, float) and d2 <= tol:        # float-padded location ramp (see above)
+                        want = alts[m]
+                        r['loc'], r['mag'] = d2, _dev(gm, want[1])
+                        try:
+                            want_env = oracle_envelope(want[0], want[1], n, case['interp']) if want[2] >= 1 else None
+                        except Exception as e:  # noqa
+                            want_env = None
                 r['env'] = None if want_env is None else _dev(env, want_env)
                 r['scale'] = float(max(1.0, np.max(np.abs(want[1]))))
             res['env'][em] = r
@@ -836,20 +1033,38 @@ class PadOracle(Stream):
         return d is not None and (isinstance(d, str) or d > tol)
 
     def holds(self, case, out):
+        try:
+            return self._holds(case, out)
+        except Exception as ex:  # noqa   a crash of the check itself is never a property violation
+            return [Failure('instance-check-crashed', repr(ex), literal=False)]
+
+    def _holds(self, case, out):
         if isinstance(out, ImplError):
-            return [Failure('pad-oracle-not-runnable:' + out['error'], out['msg'])]
+            if 'imeout' in str(out['error']):
+                return []
+            return [Failure('pad-oracle-not-runnable:' + out['error'], out['msg'], literal=False)]
         fs = []
         tol = out['tol']
         opts = 'pad_width=%s parabolic=%s loc_pad_opts=%s mag_pad_opts=%s' % (case['pad_width'], case['parabolic'], case['loc'], case['mag'])
+        # C06 is about SUPPLIED options: with no custom np.pad dictionary in the case the comparison only pins the default
+        # padding rule (C05's matter) - mechanism level. Likewise the clipping of pad_width to the number of extrema and the
+        # None convention for fewer than two extrema.
+        supplied = bool(case['mag']) or bool(case['loc'])
+
+        def literal(r):
+            return supplied and r.get('rounds') in (0, 1) and r.get('n_ext', 0) >= max(2, case['pad_width'])
         for m, r in out['gpe'].items():
             # np.pad(values, w, **opts) applied once is the documented meaning of the option; the repetition of the padding
             # while the locations do not reach past both ends is the anchored mechanism (non-literal when it was needed)
-            lit = r.get('rounds') in (None, 0, 1)
+            lit = literal(r)
             if 'unpadded' in r and any(self._bad(d, tol) for d in r['unpadded']):
                 fs.append(Failure('unpadded-extrema-differ-from-three-point-rule:%s' % m,
                                   'get_padded_extrema(pad_width=0, mode=%s): deviation (locations, magnitudes) %s' % (m, r['unpadded']), literal=False))
+            if 'oracle_failed' in r:
+                fs.append(Failure('pad-oracle-not-runnable:%s' % m, '%s: %s' % (opts, r['oracle_failed']), literal=False))
+                continue
             if 'error' in r:
-                fs.append(Failure('pad-options-raise:get_padded_extrema:%s:%s' % (m, r['error']), opts))
+                fs.append(Failure('pad-options-raise:get_padded_extrema:%s:%s' % (m, r['error']), opts, literal=lit))
                 continue
             for what in ('loc', 'mag'):
                 if self._bad(r[what], tol):
@@ -857,11 +1072,15 @@ class PadOracle(Stream):
                                       '%s: mode=%s returned (locs, mags) %s..., np.pad of the %d actual extrema with these options gives %s... '
                                       '(%s rounds; deviation %s)' % (opts, m, r['got'], r['n_ext'], r['want'], r['rounds'], r[what]), literal=lit))
         for em, r in out['env'].items():
-            lit = out['gpe'][ENV_MODES[em]].get('rounds') in (None, 0, 1)
+            g = out['gpe'][ENV_MODES[em]]
+            lit = literal(g)
+            if 'oracle_failed' in r:
+                continue
             if 'error' in r:
                 # without padding (pad_width 0) or when scipy itself refuses the knots there is no envelope to speak of
-                if 'error' not in out['gpe'][ENV_MODES[em]] and 'oracle_error' not in r and (out['gpe'][ENV_MODES[em]].get('rounds') or 0) >= 1:
-                    fs.append(Failure('pad-options-raise:interp_envelope:%s:%s' % (em, r['error']), '%s interp_method=%s: %s' % (opts, case['interp'], r.get('msg'))))
+                if 'error' not in g and 'oracle_error' not in r and (g.get('rounds') or 0) >= 1:
+                    fs.append(Failure('pad-options-raise:interp_envelope:%s:%s' % (em, r['error']),
+                                      '%s interp_method=%s: %s' % (opts, case['interp'], r.get('msg')), literal=lit))
                 continue
             for what in ('loc', 'mag'):
                 if self._bad(r[what], tol):
@@ -904,4 +1123,218 @@ class PadOracle(Stream):
             yield dict(case, pad_width=2)
 
 
-STREAMS = [Signatures(), Routing(), StageSpecialCases(), PadOracle()]
+# ------------------------------------------------------------------------------------------------
+# Independent evaluation of the stop-rule options.  Comparing routes and variants with each other cannot see an option
+# that is replaced in the extraction stage itself (all of them share get_next_imf: round-4 change C06/1 passed
+# rilling_thresh[0] where rilling_thresh[2] belongs).  Here single-IMF extraction is re-assembled explicitly from the
+# envelope stage (the public interp_envelope, called with the same envelope / extrema dictionaries) and the DOCUMENTED stop
+# rule evaluated with the numbers the user supplied; every variant that reduces to one extraction of the input must return
+# that result.
+
+STOP_LIMIT = 300          # iterations the reference is willing to follow (longer runs are tagged, not judged)
+
+
+def stop_signal(spec):
+    rs = np.random.RandomState(spec['seed'])
+    n = spec['n']
+    t = np.linspace(0, 1, n)
+    fam = spec['family']
+    if fam == 'noisy-tones':
+        return np.sin(2 * np.pi * 4 * t) + 0.7 * np.sin(2 * np.pi * 13 * t + 1) + spec.get('noise', 0.4) * rs.randn(n)
+    if fam == 'noise':
+        return rs.randn(n)
+    return make_signal(spec)
+
+
+def ref_extract(x, imf, env, ext):
+    """(imf, iterations, near_tie) | (None, why, False): the documented rule, envelopes from the public stage function"""
+    S = sift_mod()
+    method = imf.get('stop_method', 'sd')
+    proto = np.array(x, dtype=float).reshape(-1, 1)
+    niters, tie = 0, False
+    while True:
+        if niters >= STOP_LIMIT:
+            return None, 'reference-iteration-limit', False
+        niters += 1
+        up = S.interp_envelope(proto, mode='upper', **copy.deepcopy(env or {}), extrema_opts=copy.deepcopy(ext))
+        lo = S.interp_envelope(proto, mode='lower', **copy.deepcopy(env or {}), extrema_opts=copy.deepcopy(ext))
+        if up is None or lo is None:
+            return proto, niters, tie
+        up, lo = np.asarray(up, dtype=float).ravel(), np.asarray(lo, dtype=float).ravel()
+        avg = (up + lo) / 2
+        x1 = proto - avg[:, None]
+        if method == 'sd':
+            # "the threshold at which the sift of each IMF will be stopped": SD = sum (change)^2 / sum (proto-IMF)^2 < sd_thresh
+            thr = imf.get('sd_thresh', 0.1)
+            metric = float(np.sum((proto - x1) ** 2) / np.sum(proto ** 2))
+            if not np.isfinite(metric):
+                return None, 'non-finite-metric', False
+            tie = tie or abs(metric - thr) <= 1e-7 * max(abs(thr), 1e-300)
+            stop = metric < thr
+        elif method == 'rilling':
+            # (sd1, sd2, alpha): E = |mean envelope| / mode amplitude; continue until E < sd1 for the fraction (1 - alpha)
+            # of the data and E < sd2 for the remainder
+            sd1, sd2, alpha = imf.get('rilling_thresh', (0.05, 0.5, 0.05))
+            amp = np.abs(up - lo) / 2
+            with np.errstate(all='ignore'):
+                E = np.abs(avg) / amp
+            if not np.all(np.isfinite(E)):
+                return None, 'non-finite-metric', False
+            k, n = int(np.sum(E > sd1)), len(E)
+            border = bool(np.min(np.abs(E - sd1)) <= 1e-7 * sd1)
+            tie = tie or abs(k - alpha * n) <= 1e-6 or (border and abs(k - alpha * n) <= 1 + 1e-6) \
+                or abs(float(np.max(E)) - sd2) <= 1e-7 * sd2
+            stop = (k / n <= alpha) and not bool(np.any(E > sd2))
+        else:
+            stop = niters == imf['max_iters']
+        if stop:
+            return x1, niters, tie
+        proto = x1          # env_step_size is 1 in this stream
+
+
+class StopRule(Stream):
+    """Supplied stop rule / thresholds take effect in the extraction stage: instance-only."""
+    name = 'stop_rule'
+    parallel = False          # some variants create worker pools
+
+    IMF = [{'stop_method': 'rilling', 'rilling_thresh': {'$': 'tuple', 'v': [0.05, 0.5, 0.4]}},
+           {'stop_method': 'rilling', 'rilling_thresh': {'$': 'tuple', 'v': [0.2, 0.6, 0.01]}},
+           {'stop_method': 'rilling', 'rilling_thresh': [0.1, 0.5, 0.3]},
+           {'stop_method': 'rilling', 'rilling_thresh': [0.3, 0.35, 0.02]},
+           {'stop_method': 'rilling', 'rilling_thresh': {'$': 'tuple', 'v': [0.02, 0.9, 0.25]}},
+           {'stop_method': 'rilling'},
+           {'sd_thresh': 0.02}, {'sd_thresh': 0.5}, {'stop_method': 'sd', 'sd_thresh': 0.005}, {},
+           {'stop_method': 'fixed', 'max_iters': 1}, {'stop_method': 'fixed', 'max_iters': 4}]
+    ENV = [None, {'interp_method': 'pchip'}, {'interp_method': 'mono_pchip'}]
+    EXT = [None, {'pad_width': 4}, {'parabolic_extrema': True}]
+    VARIANTS = ['get_next_imf', 'sift', 'sift:get_func', 'mask_sift:zero-amp', 'get_next_imf_mask:zero-amp', 'ensemble_sift:zero-noise',
+                'sift_second_layer']
+
+    def _case(self, ii, ei, xi, fam, n, seed, noise=0.4):
+        return {'imf': self.IMF[ii], 'env': self.ENV[ei], 'ext': self.EXT[xi],
+                'signal': {'family': fam, 'n': n, 'seed': seed, 'noise': noise}}
+
+    def corpus(self):
+        out = []
+        for ii in range(len(self.IMF)):
+            out.append(self._case(ii, ii % 3, (ii // 3) % 3, 'noisy-tones', 128, 10 + ii))
+        out += [self._case(0, 0, 0, 'noise', 96, 3), self._case(1, 0, 0, 'walk', 192, 4), self._case(2, 1, 0, 'noise', 64, 5),
+                self._case(4, 0, 1, 'noisy-tones', 192, 6, noise=1.0)]
+        return out
+
+    def generate(self, rng, tier):
+        for _ in range(250 if tier == 'thorough' else 24):
+            ii = rng.randrange(len(self.IMF)) if rng.random() < 0.5 else rng.randrange(5)
+            yield self._case(ii, rng.choice([0, 0, 1, 2]), rng.choice([0, 0, 1, 2]), rng.choice(['noisy-tones', 'noisy-tones', 'noise', 'walk']),
+                             rng.choice([64, 96, 128, 192, 256]), rng.randint(0, 10 ** 6), rng.choice([0.2, 0.4, 1.0]))
+
+    def impl(self, case):
+        S = sift_mod()
+        x = stop_signal(case['signal'])
+        imf = {k2: _cfg.build(v2) for k2, v2 in case['imf'].items()}
+        env = None if case['env'] is None else dict(case['env'])
+        ext = None if case['ext'] is None else dict(case['ext'])
+        scale = float(max(1.0, np.max(np.abs(x))))
+        res = {'scale': scale, 'variants': {}}
+        try:
+            ref, iters, tie = ref_extract(x, imf, env, ext)
+        except Exception as e:  # noqa
+            return dict(res, unjudged='reference-raised:' + err_kind(e))
+        if ref is None:
+            return dict(res, unjudged=iters)
+        res.update(iterations=iters, near_tie=bool(tie))
+        ref = ref[:, 0]
+
+        def kw():
+            d = {'imf_opts': copy.deepcopy(imf)}
+            if env is not None:
+                d['envelope_opts'] = copy.deepcopy(env)
+            if ext is not None:
+                d['extrema_opts'] = copy.deepcopy(ext)
+            return d
+
+        def get_func():
+            cfg = S.get_config('sift')
+            cfg['max_imfs'] = 1
+            for name, d in kw().items():
+                for k2, v2 in d.items():
+                    cfg[name + '/' + k2] = v2
+            return cfg.get_func()(x)
+        calls = {
+            'get_next_imf': lambda: S.get_next_imf(x[:, None], envelope_opts=copy.deepcopy(env), extrema_opts=copy.deepcopy(ext), **copy.deepcopy(imf))[0],
+            'sift': lambda: S.sift(x, max_imfs=1, **kw()),
+            'sift:get_func': get_func,
+            'mask_sift:zero-amp': lambda: S.mask_sift(x, mask_amp=0, mask_amp_mode='abs', mask_freqs=0.1, nphases=1, max_imfs=1, **kw()),
+            'get_next_imf_mask:zero-amp': lambda: S.get_next_imf_mask(x[:, None], 0.1, 0, nphases=1, **kw())[0],
+            'ensemble_sift:zero-noise': lambda: S.ensemble_sift(x, nensembles=2, ensemble_noise=0, nprocesses=1, max_imfs=1, **kw()),
+            'sift_second_layer': lambda: S.sift_second_layer(x[:, None], sift_args=dict(kw(), max_imfs=1))[:, 0, :],
+        }
+        np.random.seed(case['signal']['seed'] % 1000)
+        for v in self.VARIANTS:
+            try:
+                got = np.asarray(calls[v](), dtype=float)
+                got = got.reshape(len(x), -1)
+                if got.shape[1] != 1:
+                    res['variants'][v] = {'shape': list(got.shape)}
+                    continue
+                res['variants'][v] = {'dev': float(np.max(np.abs(got[:, 0] - ref)))}
+            except Exception as e:  # noqa
+                res['variants'][v] = {'error': err_kind(e), 'msg': str(e)[:120]}
+        return res
+
+    def holds(self, case, out):
+        if isinstance(out, ImplError):
+            if 'imeout' in str(out['error']):
+                return []
+            return [Failure('stop-rule-oracle-not-runnable:' + out['error'], out['msg'], literal=False)]
+        if out.get('unjudged') or out.get('near_tie'):
+            return []
+        fs = []
+        method = case['imf'].get('stop_method', 'sd')
+        opts = 'imf_opts=%s envelope_opts=%s extrema_opts=%s' % ({k2: _cfg.build(v2) for k2, v2 in case['imf'].items()}, case['env'], case['ext'])
+        tol = 1e-9 * out['scale']
+        for v, r in out['variants'].items():
+            if 'error' in r:
+                if r['error'] == 'EMDSiftCovergeError':
+                    continue       # (cannot happen within the reference's iteration limit with the default max_iters; C04's subject)
+                fs.append(Failure('stop-rule-options-raise:%s:%s' % (v, r['error']), '%s: %s' % (opts, r.get('msg'))))
+            elif 'shape' in r:
+                fs.append(Failure('stop-rule-variant-shape:%s' % v, 'shape %s for max_imfs=1' % r['shape'], literal=False))
+            elif r['dev'] > tol:
+                fs.append(Failure('supplied-stop-option-not-governing:%s:%s' % (method, v),
+                                  '%s: %s deviates by %.3g from single-IMF extraction assembled from interp_envelope (same envelope / extrema '
+                                  'options) and the documented %s rule evaluated with the supplied numbers (%d iterations)'
+                                  % (opts, v, r['dev'], method, out['iterations'])))
+        return fs
+
+    def tags(self, case, out):
+        t = ['stop_method=' + case['imf'].get('stop_method', 'sd'), 'family=' + case['signal']['family'],
+             'env=' + ('None' if case['env'] is None else case['env']['interp_method']),
+             'ext=' + ('None' if case['ext'] is None else '+'.join(sorted(case['ext'])))]
+        if 'rilling_thresh' in case['imf']:
+            th = _cfg.build(case['imf']['rilling_thresh'])
+            t.append('rilling_thresh:first-and-third-entry-' + ('equal' if th[0] == th[2] else 'differ'))
+        if not isinstance(out, ImplError):
+            if out.get('unjudged'):
+                t.append('unjudged:' + str(out['unjudged']))
+            elif out.get('near_tie'):
+                t.append('unjudged:near-tie-in-a-stop-decision')
+            else:
+                k = out['iterations']
+                t.append('iterations=' + ('1' if k == 1 else '2-3' if k <= 3 else '4-10' if k <= 10 else '>10'))
+        return t
+
+    def nontrivial(self, case, out):
+        return not isinstance(out, ImplError) and not out.get('unjudged') and not out.get('near_tie') and out.get('iterations', 0) >= 2
+
+    def shrink(self, case):
+        if case['env'] is not None:
+            yield dict(case, env=None)
+        if case['ext'] is not None:
+            yield dict(case, ext=None)
+        for m in (64, 96, 128):
+            if m < case['signal']['n']:
+                yield dict(case, signal=dict(case['signal'], n=m))
+
+
+STREAMS = [Signatures(), Routing(), StageSpecialCases(), PadOracle(), StopRule()]
